@@ -4,7 +4,7 @@ import z3
 from pyvc.engine import harness
 from pyvc import sym, frames
 from pyvc.sym import SInt, SBool
-from pyvc.interp import SObj, PyExc, exc_class, call_value, BoundMethod, resolve
+from pyvc.interp import SObj, PyExc, exc_class, call_value, BoundMethod, resolve, make_exception
 from pyvc.libmodels import LockModel, _M, SymKey
 
 LEVEL = 'proof'
@@ -220,3 +220,38 @@ def decode_error(vc):
     other = [e for e in st['log'] if e[1] == 1]
     vc.check('post/other-handler-exactly-once-with-ConnectionShutdown', len(other) == 1 and issubclass(exc_class(other[0][2]), ConnectionShutdown))
     vc.check('post/defunct', conn.attrs['is_defunct'] is True and st['closed'] == [1])
+
+
+@harness('C10', 'defunct_on_error', functions=['cassandra.connection.defunct_on_error', CQ + '_send_options_message'], native='contracts.native.c10:replay')
+def decorator(vc):
+    """the decorator that turns an error on the event-loop thread into a failed connection: ensures a decorated method that raises ANY Exception subclass
+    defuncts the connection exactly once with that very exception and propagates nothing, that one which returns normally defuncts nothing, and (frame) that
+    every reader / handshake step of Connection that runs on the event loop is decorated with it"""
+    import struct
+    from cassandra import connection as cmod
+    from cassandra.connection import Connection
+    kind = vc.choice('inner_raises', [None, OSError, ValueError, struct.error, KeyError, cmod.ProtocolError, Exception])
+    calls = []
+    conn = vc.obj(Connection, endpoint='ep', is_defunct=False, is_closed=False)
+    vc.stub(CQ + 'defunct', lambda self_, exc: calls.append(exc))
+    vc.stub(CQ + 'get_request_id', lambda self_: 0)
+    raised = []
+
+    def send_msg(self_, msg, rid, cb, **kw):
+        if kind is not None:
+            e = make_exception(vc.ctx, kind, ('boom',), {})
+            raised.append(e)
+            raise PyExc(e)
+        return 0
+    vc.stub(CQ + 'send_msg', send_msg)
+    k, r = vc.call_catch(CQ + '_send_options_message', conn)
+    vc.check('wrapper/propagates-nothing', k == 'ok')
+    if kind is None:
+        vc.check('no-error/not-defuncted', calls == [])
+    else:
+        vc.check('error/defunct-once-with-that-exception', len(calls) == 1 and calls[0] is raised[0])
+    wrapper_code = Connection._send_options_message.__code__
+    on_loop = ['_read_frame_header', '_process_segment_buffer', 'process_msg', '_send_options_message', '_handle_options_response',
+               '_send_startup_message', '_handle_startup_response', '_handle_auth_response']
+    missing = [n for n in on_loop if getattr(getattr(Connection, n), '__code__', None) is not wrapper_code or not hasattr(getattr(Connection, n), '__wrapped__')]
+    vc.check('frame/every-event-loop-step-is-decorated', wrapper_code.co_name == 'wrapper' and missing == [])
